@@ -31,7 +31,7 @@ property exit 1{note}.
 for pid in sorted(by):
     L.append(f"| {pid} | " + ", ".join(n.split("-", 1)[1] for n in by[pid]) + " |")
 L.append(f"""
-### 12.2 Independently written breaking changes (`seeded/<property>-<a..f>/`)
+### 12.2 Independently written breaking changes (`seeded/<property>-<a..g>/`)
 
 {len(metas)} changes were written by fresh sub-agents in three rounds (a, b: first round; c, d: second round, where each
 agent was additionally told in one line each what the first round had done, so as to do something else, and was
@@ -64,7 +64,10 @@ two destinations on one host; a method registered after its id was refused; 65 5
 connection loss of one transport only; a listener rejection before an acceptance; non-cyclic instances; ids that differ
 in the minor version only; two SD ports on one host; TTL values built at run time and 194 days of virtual time; option
 runs that match the tail of the option array; SD endpoint options on Subscribes; one eventgroup on two local endpoints;
-stop and start in one loop iteration; a non-cyclic offerer with infinite TTLs; two instances
+stop and start in one loop iteration; a non-cyclic offerer with infinite TTLs; a second SD port on a sender's host and
+offers that come and go inside session histories; more than 64 destinations; entries in front of the refreshing entry;
+endpoint options in another order in the refresh; requesters that restart while an answer is pending; the datagram
+protocol's own dispatch loop; two instances
 sharing service and instance id; a lost StopOffer followed by a restart within the TTL; empty event values; messages
 with the unicast flag clear; peer restarts during the session-id soak; one endpoint in two eventgroups; type bytes
 with the TP bit). Each is now generated on purpose and most are reported as probes in the evidence.
